@@ -106,6 +106,8 @@ def order(rt, interp, op, a, b):
         m = rt.lookup_method(a.cls, "__lt__" if opn == "Lt" else "__le__")
         if m is not None:
             return interp.truth_sym(interp.call(rt.bind(m, a), [b], {}))
+    if rt.is_library_obj(a) or rt.is_library_obj(b):
+        raise Undecided("ordering of a model object")
     interp.raise_py("TypeError", "'<' not supported between instances")
 
 
@@ -264,7 +266,7 @@ def _concrete_binop(rt, interp, opn, a, b, node):
             m = rt.lookup_method(a.cls, dunder)
             if m is not None:
                 return interp.call(rt.bind(m, a), [b], {})
-        if any(isinstance(v, Obj) and getattr(v.cls, "kind", "") == "builtin" for v in (a, b)):
+        if rt.is_library_obj(a) or rt.is_library_obj(b):
             # a model of a library class (timedelta, ...) says nothing about operators it does not list
             raise Undecided("operator %s on the library object %r is not modelled" % (opn, a if isinstance(a, Obj) else b))
         interp.raise_py("TypeError", "unsupported operand types for %s" % opn)
@@ -382,6 +384,8 @@ def _len(interp, args, kwargs):
         m = rt.lookup_method(v.cls, "__len__")
         if m is not None:
             return interp.call(rt.bind(m, v), [], {})
+        if rt.is_library_obj(v):
+            raise Undecided("len() of the model object %s" % v.cls.name)
         interp.raise_py("TypeError", "object of type %r has no len()" % v.cls.name)
     hook = rt.len_hooks.get(type(v).__name__)
     if hook is not None:
